@@ -30,6 +30,8 @@ OPS = [
     "orthlast",
     "truncate",
     "add",
+    "addself",
+    "addsame",
     "scale",
     "imul",
     "applyX0",
@@ -74,6 +76,19 @@ def make_initial(name, n, dim, precision, cap, seed):
             f.append(_t(t))
         f[0] = f[0] / np.sqrt(2)
         return MPS(f, orthogonality_center=None, **kw)
+    if name in ("thr_lo", "thr_hi"):
+        # Schmidt spectrum (s0, s1) at every bond with s1 just below / above the truncation threshold `precision`:
+        # sum_k s_k |k k ... k>.  Exact sums such as a + a move s1 across the threshold.
+        s1 = (0.7 if name == "thr_lo" else 1.4) * precision
+        sv = [np.sqrt(1 - s1**2), s1]
+        f = []
+        for i in range(n):
+            l, r_ = (1 if i == 0 else 2), (1 if i == n - 1 else 2)
+            t = np.zeros((l, dim, r_), dtype=complex)
+            for k in range(2):
+                t[min(k, l - 1), k, min(k, r_ - 1)] = sv[k] if i == 0 else 1.0
+            f.append(_t(t))
+        return MPS(f, orthogonality_center=None, **kw)
     bonds = [min(dim ** min(i + 1, n - i - 1), 4 if name == "random" else 8) for i in range(n - 1)]
     m = MPS(random_factors(n, dim, bonds, seed + 13 * n + dim), orthogonality_center=None, **kw)
     if name == "random_canonical":
@@ -81,7 +96,7 @@ def make_initial(name, n, dim, precision, cap, seed):
     return m
 
 
-INITIALS = ["product", "ghz", "random", "random_canonical", "random_fat"]
+INITIALS = ["product", "ghz", "random", "random_canonical", "random_fat", "thr_lo", "thr_hi"]
 
 
 def fixed_other(n, dim, precision, cap, seed):
@@ -198,6 +213,24 @@ def run_history(n, dim, init, precision, cap, history, seed, mode, cache):
             new_v = v + live[1][1]
             trunc_tol = obj.precision * np.sqrt(n - 1)
             live.append([res, None, f"step{step}:add"])
+            cur = len(live) - 1
+            obj = res
+        elif op in ("addself", "addsame"):
+            if op == "addself":
+                res = obj + obj
+                new_v = 2 * v
+            else:
+                # an operand orthogonalised on the same site as obj (shared orthogonality centre)
+                twin = fixed_other(n, dim, precision, cap, seed + 1)
+                if obj.orthogonality_center is not None:
+                    twin.orthogonalize(obj.orthogonality_center)
+                tv = dense(twin)
+                live.append([twin, tv, f"step{step}:twin"])
+                expected[id(twin)] = tv
+                res = obj + twin
+                new_v = v + tv
+            trunc_tol = obj.precision * np.sqrt(n - 1)
+            live.append([res, None, f"step{step}:{op}"])
             cur = len(live) - 1
             obj = res
         elif op in ("scale", "imul"):
